@@ -51,6 +51,9 @@ HEADER = '''##fileformat=VCFv4.2
 ##INFO=<ID=DP,Number=1,Type=Integer,Description="Total Depth">
 ##INFO=<ID=END,Number=1,Type=Integer,Description="End position">
 ##INFO=<ID=SOMATIC,Number=0,Type=Flag,Description="Somatic event">
+##ALT=<ID=DEL,Description="Deletion">
+##ALT=<ID=DUP,Description="Duplication">
+##ALT=<ID=INS,Description="Insertion">
 ##FORMAT=<ID=GT,Number=1,Type=String,Description="Genotype">
 ##FORMAT=<ID=AD,Number=R,Type=Integer,Description="Allelic depths">
 ##FORMAT=<ID=DP,Number=1,Type=Integer,Description="Read depth">
@@ -113,7 +116,13 @@ def gen_call(rng, has_alt_col, depth_bias, nonref):
         dp = max(0, d + rng.choice([-3, -1, 1, 5]))     # DP disagreeing with the AD sum
     elif x < 0.124:
         dp = 0
-    return {'gt': gt, 'phased': phased, 'ad': ad, 'dp': dp}
+    # VCF allows trailing FORMAT values to be dropped ("0/1" under GT:AD:DP): the text loses them where they are missing
+    trim = rng.random() < 0.12
+    if trim and rng.random() < 0.6:
+        dp = None
+        if rng.random() < 0.4:
+            ad = [None]
+    return {'gt': gt, 'phased': phased, 'ad': ad, 'dp': dp, 'trim': trim}
 
 
 def rand_seq(rng, n):
@@ -179,6 +188,12 @@ def gen_vcf(rng, tier, size_class=None):
             elif q < 0.06:
                 alts = [alt, '<NON_REF>']
                 nonref = True
+            symbolic = False
+            if alts and not nonref and rng.random() < 0.04:
+                # structural record: symbolic allele, INFO END (pysam keeps END out of record.info)
+                ref = ref[:1]
+                alts = [rng.choice(['<DEL>', '<DUP>', '<INS>'])]
+                symbolic = True
             key = (cname, pos, ref, alts[0] if alts else '.')
             if key in keys:
                 continue
@@ -200,7 +215,7 @@ def gen_vcf(rng, tier, size_class=None):
                 'chrom': cname, 'ckey': ckey, 'pos': pos, 'ref': ref, 'alts': alts, 'filt': filt,
                 'somatic': rng.random() < 0.12,
                 'info_dp': rng.choice([None, None, rng.randint(0, 90)]),
-                'info_end': rng.choice([None, None, None, None, pos + rng.randint(0, 60)]),
+                'info_end': (pos + rng.randint(1, 500)) if symbolic else rng.choice([None, None, None, None, pos + rng.randint(0, 60)]),
                 'has_ad': has_ad, 'has_dp': has_dp, 'calls': calls})
     # one whole sample without any AD / DP / GT value (its columns must still come out numeric: 0 where missing)
     w = rng.random()
@@ -220,7 +235,12 @@ def gen_vcf(rng, tier, size_class=None):
     if rng.random() < 0.3:
         rng.shuffle(recs)
         order = 'shuffled'
+    # contigs that carry records but have no ##contig line (htslib adds them while parsing)
+    header_contigs = list(contigs)
+    if rng.random() < 0.15:
+        header_contigs.remove(rng.choice(header_contigs))
     return {'samples': samples, 'peds': peds, 'other_ped_lines': other_ped_lines, 'contigs': contigs,
+            'header_contigs': header_contigs,
             'recs': recs, 'order': order, 'mind': mind, 'size_class': size_class, 'whole_sample_missing': whole}
 
 
@@ -231,13 +251,16 @@ def call_text(rec, c):
         out.append('.' if c['ad'] == [None] else ','.join('.' if a is None else str(a) for a in c['ad']))
     if rec['has_dp']:
         out.append('.' if c['dp'] is None else str(c['dp']))
+    if c.get('trim'):
+        while len(out) > 1 and out[-1] == '.':
+            out.pop()
     return ':'.join(out)
 
 
 def write_vcf(path, vcf):
     with open(path, 'w') as fh:
         fh.write(HEADER)
-        for cname, _ in vcf['contigs']:
+        for cname, _ in vcf.get('header_contigs', vcf['contigs']):
             fh.write('##contig=<ID=%s,length=100000000>\n' % cname)
         for line in vcf['other_ped_lines']:
             fh.write(line + '\n')
@@ -379,7 +402,7 @@ def same_num(code, model):
     """code cell (float|'inf'|None) vs model cell (Fraction|int|'inf'|None)"""
     if model is None or code is None:
         return model is None and code is None
-    if model == 'inf' or code == 'inf' or code == '-inf':
+    if model in ('inf', '-inf') or code in ('inf', '-inf'):
         return model == code
     return vlib.close(float(code), model)
 
@@ -824,6 +847,27 @@ def stage_het(cx, ssel, nsel, md, zf, tb, expect=None):
     if zf is None and paired and not any(r[7][0] for r in rows1):
         eff = 0.25
         fallback_freq = True        # documented Mutect2 work-around: genotypes say nothing, no oracle
+    # which rows of the decision table (Props C18_load_het_table) this case exercises
+    if fallback_freq:
+        ck.cls('het:table:automatic-zygosity_freq-0.25')
+    if paired and rows1 and eff is not None and 0 <= eff <= 0.5 and fin:
+        def zq(g):
+            x = F(int(g[2]), int(g[1])) if g[1] else F(0)
+            return 0 if x < F(eff) else (1 if x >= 1 - F(eff) else F(1, 2))
+        by_gt = [r[6][0] != 0 and r[7][0] == 0 for r in rows1]
+        by_fq = [zq(r[6]) != 0 and zq(r[7]) == 0 for r in rows1]
+        if by_gt != by_fq:
+            ck.cls('het:table:regenotyping-changes-the-somatic-drop')
+    if paired and md:
+        si, ni = None, None
+        oc = o_choose(vcf, ssel, nsel)
+        if isinstance(oc, list) and oc[1]:
+            si, ni = vcf['samples'].index(oc[0]), vcf['samples'].index(oc[1])
+            for r in vcf['recs']:
+                dt, dn = o_geno(r, r['calls'][si])[1], o_geno(r, r['calls'][ni])[1]
+                if dt != UNDEF and dn != UNDEF and (dt >= md) != (dn >= md):
+                    ck.cls('het:table:min-depth-decided-by-the-normal')
+                    break
     amb = [False]
     if eff is not None and 0 <= eff <= 0.5:
         lo, hi = F(eff), 1 - F(eff)
@@ -989,7 +1033,8 @@ def stage_baf(cx, source, queries, expects=None):
     het = het_rows(rows)
     none_het = bool(rows) and not het
     # a normal frequency of exactly 1 makes TumorBoost divide by zero (inf / NaN): outside the model's BAF stages
-    boost_inf = paired and any((exact_freq(None, r, 'n') or F(0)) == 1 for r in rows)
+    # (only the rows that are boosted matter: the heterozygous ones, or all of them under the fallback)
+    boost_inf = paired and any((exact_freq(None, r, 'n') or F(0)) == 1 for r in (het or rows))
     dropped = labels != list(range(len(labels)))
     code_out, cases = [], []
     for qi, (ranges, ah, tb) in enumerate(queries):
@@ -1068,15 +1113,107 @@ def stage_baf(cx, source, queries, expects=None):
         cx.pend.add('baf', [cx.H, cx.R, ssel, nsel, stage, md, ss, zf, [list(q) for q in queries]], cb)
 
 
+# ---- baf_by_ranges with another summary function ---------------------------------------------
+
+
+def summary_funcs():
+    import numpy as np
+    return {'median': np.nanmedian, 'mean': np.nanmean, 'min': np.nanmin, 'max': np.nanmax}
+
+
+def agg_f(name, vals):
+    if name == 'median':
+        return median_f(vals)
+    if name == 'mean':
+        return sum(vals) / len(vals)
+    return min(vals) if name == 'min' else max(vals)
+
+
+def o_range_gen(het, rg, ah, tb, paired, name):
+    """candidates for the value of one range under summary function `name`: no heterozygous variant inside -> missing;
+    ONE -> that frequency (mirrored only when a side was requested); more -> the summary of the mirrored frequencies"""
+    chrom, s, e = rg
+    inside = [r for r in het if r[0] == chrom and s <= r[1] and r[2] <= e]
+    touching = [r for r in het if r[0] == chrom and r[2] > s and r[1] < e]
+    if len(inside) != len(touching):
+        return UNDEF, []
+    vals = own_values(inside, tb, paired)
+    if UNDEF in vals:
+        return UNDEF, vals
+    if not vals:
+        return [None], vals
+    if len(vals) == 1:
+        return ([mirror_f(ah, vals[0])] if ah is not None else [vals[0]]), vals
+    return [agg_f(name, [mirror_f(a, x) for x in vals]) for a in ((True, False) if ah is None else (ah,))], vals
+
+
+def stage_baf_gen(cx, source, queries):
+    """queries: (ranges, above_half, tumor_boost, summary function name)"""
+    ck, idx = cx.ck, cx.idx
+    (stage, ssel, nsel, md, ss, zf, varr, rows, paired, labels) = source
+    if not finite_rows(rows):
+        return
+    het = het_rows(rows)
+    none_het = bool(rows) and not het
+    boost_inf = paired and any((exact_freq(None, r, 'n') or F(0)) == 1 for r in (het or rows))
+    funcs = summary_funcs()
+    code_out, cases, sent = [], [], []
+    for ranges, ah, tb, name in queries:
+        if not ranges or (tb and boost_inf):
+            continue
+        case = dict(cx.base, stage='baf', summary_func='np.nan' + name, source_stage=stage, sample_id=ssel, normal_id=nsel,
+                    min_depth=md, skip_somatic=ss, zygosity_freq=zf, ranges=ranges, above_half=ah, tumor_boost=tb)
+        try:
+            out = varr.baf_by_ranges(make_segments(ranges), summary_func=funcs[name], above_half=ah, tumor_boost=tb)
+            c = series_cells(out, len(ranges))
+        except Exception as e:      # noqa
+            c = errname(e)
+        sent.append([[ranges, ah, tb], name])
+        code_out.append(c)
+        cases.append(case)
+        ck.count(['baf_gen', idx, stage, ssel, nsel, md, ss, zf, ranges, ah, tb, name], nontrivial=bool(het),
+                 cls='baf:summary_func=%s:ah=%s%s' % (name, ah, ':boost' if (tb and paired) else ''))
+        if isinstance(c, Err) or c == 'dest' or len(c) != len(ranges):
+            report(ck, 'baf_by_ranges(summary_func=np.nan%s) does not give one value per range' % name, case, code=c,
+                   clause='C18_baf_general')
+            continue
+        if none_het:
+            continue
+        for rg, got in zip(ranges, c):
+            cands, vals = o_range_gen(het, rg, ah, tb, paired, name)
+            if cands == UNDEF or any(same_num(got, x) for x in cands):
+                continue
+            report(ck, 'baf_by_ranges(summary_func=np.nan%s): value of %s:%d-%d is not the %s of its %d heterozygous '
+                   'frequencies mirrored %s 1/2' % (name, rg[0], rg[1], rg[2], name, len(vals),
+                                                    'above' if ah else 'below' if ah is not None else 'to one side of'),
+                   case, range=list(rg), frequencies=vals[:20], code=got, expected=cands, clause='C18_baf_general')
+            break
+
+    def cb(m, code_out=code_out, cases=cases):
+        if isinstance(m, Err):
+            ck.tie_break('model BAF source table errors where the code reads fine', cases[0] if cases else cx.base, model=m)
+            return
+        for c, mm, case in zip(code_out, m, cases):
+            if not same_vec(c, mm):
+                ck.tie_break('model baf_by_ranges_gen differs from the code', case, code=c, model=mm)
+                return
+    if sent:
+        cx.pend.add('baf_gen', [cx.H, cx.R, ssel, nsel, stage, md, ss, zf, sent], cb)
+
+
 # ---- whole-array mirrored_baf and tumor_boost() ---------------------------------------------
 
 
 def stage_mirrored(cx, source, mq):
     ck, idx = cx.ck, cx.idx
     (stage, ssel, nsel, md, ss, zf, varr, rows, paired, labels) = source
-    if not finite_rows(rows):
-        return
-    boost_inf = paired and any((exact_freq(None, r, 'n') or F(0)) == 1 for r in rows)
+    nonfinite = not finite_rows(rows)
+    boost_inf = paired and (nonfinite or any((exact_freq(None, r, 'n') or F(0)) == 1 for r in rows))
+    # infinite frequencies (count > 0 at depth 0) and TumorBoost over a normal frequency of 1 (x/0): compared with
+    # the IEEE reading of the model (Model/VBaf.v mirrored_baf_r: inf / -inf / NaN cells); no direct oracle there
+    use_r = nonfinite or boost_inf
+    if use_r:
+        ck.cls('mirrored:%s(IEEE model)' % ('infinite-frequency' if nonfinite else 'normal-frequency-1'))
     mc = []
     for ah, tb in mq:
         case = dict(cx.base, stage='mirrored', source_stage=stage, sample_id=ssel, normal_id=nsel, min_depth=md,
@@ -1087,11 +1224,10 @@ def stage_mirrored(cx, source, mq):
             mc.append(errname(e))
         ck.count(['mirrored', idx, stage, ssel, nsel, md, ss, zf, ah, tb], nontrivial=len(rows) > 1,
                  cls='mirrored:ah=%s%s' % (ah, ':boost' if (tb and paired) else ''))
-        if tb and boost_inf:
-            mc[-1] = SKIP
-            continue
         if isinstance(mc[-1], Err):
             report(ck, 'mirrored_baf raised %s' % mc[-1].msg, case, code=mc[-1], clause='C18_baf')
+            continue
+        if nonfinite or (tb and boost_inf):
             continue
         base_vals = own_values(rows, tb, paired)
         if UNDEF in base_vals:
@@ -1115,7 +1251,7 @@ def stage_mirrored(cx, source, mq):
             if [int(x) for x in ser.index.tolist()] != labels:
                 report(ck, 'tumor_boost(): the result is not labelled like the variants it was computed from', case,
                        code=[int(x) for x in ser.index.tolist()][:30], expected=labels[:30], clause='C18_attached')
-            else:
+            elif not nonfinite:
                 exp = own_values(rows, True, True)
                 for r, g, x in zip(rows, tbv, exp):
                     if x != UNDEF and not same_num(g, x):
@@ -1131,17 +1267,22 @@ def stage_mirrored(cx, source, mq):
         if isinstance(m, Err):
             ck.tie_break('model mirrored_baf source errors', info, model=m)
             return
-        for c, mm in zip(mc, m[0]):
+        for c, mm, (ah_, tb_) in zip(mc, m[0], mq):
             if c == SKIP or isinstance(c, Err):
                 continue
             if not same_vec(c, mm):
+                if ah_ is None and not nonfinite and not (tb_ and boost_inf):
+                    base = own_values(rows, tb_, paired)
+                    if UNDEF not in base and median_near_half([float(x) for x in base]):
+                        ck.float_ambiguous += 1
+                        continue
                 ck.tie_break('model mirrored_baf differs from the code', info, code=c[:30], model=mm[:30])
                 return
         if tbv == SKIP:
             return
         if (tbv is None) != (m[1] is None) or (tbv is not None and not same_vec(tbv, m[1])):
             ck.tie_break('model tumor_boost differs from the code', info, code=tbv, model=m[1])
-    cx.pend.add('mirrored', [cx.H, cx.R, ssel, nsel, stage, md, ss, zf, [list(q) for q in mq]], cb2)
+    cx.pend.add('mirrored_r' if use_r else 'mirrored', [cx.H, cx.R, ssel, nsel, stage, md, ss, zf, [list(q) for q in mq]], cb2)
 
 
 # ---- het_frac_by_ranges ------------------------------------------------------------------------
@@ -1276,6 +1417,18 @@ def run_vcf(ck, rng, scratch, idx, vcf, pend, budget):
         ck.cls('vcf:one-sample-without-any-%s' % vcf['whole_sample_missing'].upper())
     ck.cls('vcf:records=%s:samples=%d:contigs=%d%s' % (vcf['size_class'], len(vcf['samples']), len(vcf['contigs']),
                                                        ':pedigree' if vcf['peds'] else ''))
+    for name, hit in (('contig-absent-from-header', len(vcf.get('header_contigs', vcf['contigs'])) < len(vcf['contigs'])
+                       and any(r['chrom'] not in dict(vcf['header_contigs']) for r in vcf['recs'])),
+                      ('symbolic-alt-with-END', any(r['alts'] and r['alts'][0].startswith('<') and r['alts'][0] != '<NON_REF>'
+                                                    for r in vcf['recs'])),
+                      ('trailing-format-values-dropped', any(c.get('trim') and call_text(r, c) != call_text(r, dict(c, trim=False))
+                                                             for r in vcf['recs'] for c in r['calls'])),
+                      ('haploid-genotype', any(len(c['gt']) == 1 for r in vcf['recs'] for c in r['calls'])),
+                      ('phased-genotype', any(c['phased'] and len(c['gt']) > 1 for r in vcf['recs'] for c in r['calls'])),
+                      ('filter-values', any(r['filt'] and r['filt'] != ['PASS'] for r in vcf['recs'])),
+                      ('alt-dot', any(not r['alts'] for r in vcf['recs']))):
+        if hit:
+            ck.cls('vcf:' + name)
     for _ in range(budget['choose']):
         ssel, nsel = gen_selectors(rng, vcf)
         stage_choose(cx, ssel, nsel)
@@ -1320,8 +1473,11 @@ def run_vcf(ck, rng, scratch, idx, vcf, pend, budget):
             tb = rng.random() < (0.4 if paired else 0.1)
             queries.append((ranges, ah, tb))
         stage_baf(cx, src, queries)
+        stage_baf_gen(cx, src, [(gen_ranges(rng, vcf, rows), rng.choice([None, True, False]),
+                                 rng.random() < (0.3 if paired else 0.0), rng.choice(['mean', 'min', 'max', 'mean', 'median']))
+                                for _ in range(budget.get('baf_gen', 1))])
         stage_mirrored(cx, src, [(ah, rng.random() < (0.5 if paired else 0.1)) for ah in (None, True, False)])
-        if src[0] == 0:
+        if src[0] == 0 or rng.random() < 0.5:
             stage_het_frac(cx, src, [gen_ranges(rng, vcf, rows)])
     for src in het_tables[:budget['call']]:
         calls = []
@@ -1412,6 +1568,145 @@ def check_formulas(ck, rng):
                          code=c, model=mo)
 
 
+def median_near_half(vals):
+    """the majority direction `median > 0.5` is a float decision: True when the exact median of the non-NaN values
+    (infinities ordered) is finite and within 1e-9 of 1/2 -- float and exact arithmetic may then disagree"""
+    xs = sorted(x for x in vals if x == x)
+    if not xs:
+        return False
+    n = len(xs)
+    mid = [xs[n // 2]] if n % 2 else [xs[n // 2 - 1], xs[n // 2]]
+    if any(abs(x) == math.inf for x in mid):
+        return False
+    m = sum(F(x) for x in mid) / len(mid)
+    return abs(m - F(1, 2)) < F(1, 10 ** 9)
+
+
+def xcell(x):
+    """python float -> IEEE cell of the model: number | 'inf' | '-inf' | None (NaN)"""
+    x = float(x)
+    if x != x:
+        return None
+    if x == math.inf:
+        return 'inf'
+    if x == -math.inf:
+        return '-inf'
+    return x
+
+
+def edge_class(t, n):
+    if t != t or n != n:
+        return 'missing'
+    if abs(t) == math.inf or abs(n) == math.inf:
+        return 'infinite'
+    if n == 1:
+        return 'n=1:t<1' if t < 1 else 'n=1:t=1' if t == 1 else 'n=1:t>1'
+    if n == 0:
+        return 'n=0:t>=0' if t >= 0 else 'n=0:t<0'
+    if t == n:
+        return 't=n'
+    return 'regular'
+
+
+def check_edges(ck, rng):
+    """The elementwise formulas on the values the proofs case-split on (Props: C18_boost_edges, C18_boost_range,
+    C18_source_mirror): 0, 1, t = n, missing, infinite -- code vs the IEEE reading of the model, and vs the formula
+    of the property text wherever it defines a number."""
+    from cnvlib import vary
+    from cnvlib.vary import VariantArray
+    import numpy as np
+    import pandas as pd
+    nan, inf = float('nan'), math.inf
+    specials = [0.0, 1.0, 0.5, 0.25, 0.75, 0.125, 1.5, -0.25, 2.0, nan, inf, -inf]
+    pairs = [(a, b) for a in specials for b in specials]
+    grid = [float(F(a, b)) for b in (1, 2, 3, 4, 5, 8, 10, 20, 40) for a in range(0, b + 1)]
+    for _ in range(300 if ck.tier == 'quick' else 6000):
+        t = rng.choice(grid) if rng.random() < 0.8 else rng.choice(specials)
+        n = rng.choice(grid) if rng.random() < 0.8 else rng.choice(specials)
+        if rng.random() < 0.15:
+            n = t
+        pairs.append((t, n))
+    code = [fcell(x) for x in vary._tumor_boost(np.array([p[0] for p in pairs]), np.array([p[1] for p in pairs])).tolist()]
+    model = vlib.model_batch('c18_boost_ieee', [[[xcell(t), xcell(n)] for t, n in pairs]])[0]
+    for (t, n), c, mo in zip(pairs, code, model):
+        k = edge_class(t, n)
+        ck.count(['boost_ieee', repr(t), repr(n)], nontrivial=k != 'regular', cls='boost-edge:' + k)
+        case = {'stage': '_tumor_boost', 't': repr(t), 'n': repr(n)}
+        if k in ('regular', 't=n', 'n=0:t>=0', 'n=1:t<1'):
+            e = boost_f(F(t), F(n))
+            if not same_num(c, e):
+                report(ck, 'TumorBoost formula: boosted(%r, %r)' % (t, n), case, code=c, expected=e, clause='C18_boost')
+                continue
+            if k == 't=n' and not same_num(c, F(1, 2)):
+                report(ck, 'TumorBoost of equal tumour and normal frequencies is not 1/2', case, code=c, expected=F(1, 2),
+                       clause='C18_boost_same')
+                continue
+            if 0 <= t <= 1 and 0 < n < 1 and not (c is not None and c not in ('inf', '-inf') and -1e-12 <= c <= 1 + 1e-12):
+                report(ck, 'TumorBoost of frequencies in [0,1] leaves [0,1]', case, code=c, clause='C18_boost_range')
+                continue
+        if not same_num(c, mo):
+            ck.tie_break('model boost_ieee differs from _tumor_boost', case, code=c, model=mo)
+    # _mirrored_baf on whole vectors, direction given or from the median (NaN skipped, infinities ordered)
+    vecs = []
+    for _ in range(150 if ck.tier == 'quick' else 3000):
+        k = rng.choice([0, 1, 2, 2, 3, 4, 5, 7])
+        vals = [rng.choice(grid) if rng.random() < 0.8 else rng.choice(specials) for _ in range(k)]
+        vecs.append((rng.choice([None, None, True, False]), vals))
+    model = vlib.model_batch('c18_mirror_vec', [[ah, [xcell(x) for x in vals]] for ah, vals in vecs])
+    for (ah, vals), mo in zip(vecs, model):
+        c = [fcell(x) for x in vary._mirrored_baf(pd.Series(vals, dtype=float), ah).tolist()]
+        fin = all(x == x and abs(x) != inf for x in vals)
+        ck.count(['mirror_vec', ah, [repr(x) for x in vals]], nontrivial=len(vals) > 1,
+                 cls='mirror-vector:ah=%s:%s' % (ah, 'finite' if fin else 'non-finite'))
+        case = {'stage': '_mirrored_baf', 'above_half': ah, 'values': [repr(x) for x in vals]}
+        if fin and vals:
+            for a in ((True, False) if ah is None else (ah,)):
+                if all(same_num(g, mirror_f(a, F(x))) for g, x in zip(c, vals)):
+                    break
+            else:
+                report(ck, '_mirrored_baf is not 1/2 +- |v - 1/2| element by element', case, code=c,
+                       expected=[mirror_f(True if ah is None else ah, F(x)) for x in vals], clause='C18_baf_mirror')
+                continue
+        if not same_vec(c, mo):
+            if ah is None and len(vals) > 1 and median_near_half(vals):
+                ck.float_ambiguous += 1
+                continue
+            ck.tie_break('model mirror_ieee / median_r differs from _mirrored_baf', case, code=c, model=mo)
+    # one range, k heterozygous frequencies, summary function other than the default
+    funcs = summary_funcs()
+    seg = make_segments([['chr1', 0, 1000]])
+    sums = []
+    for _ in range(200 if ck.tier == 'quick' else 4000):
+        k = rng.choice([1, 1, 2, 2, 3, 4, 5, 8])
+        sums.append((rng.choice(['mean', 'min', 'max', 'median']), rng.choice([None, True, False]),
+                     [rng.choice(grid) for _ in range(k)]))
+    model = vlib.model_batch('c18_summary_gen', [[name, ah, vals] for name, ah, vals in sums])
+    for (name, ah, vals), mo in zip(sums, model):
+        ck.count(['summary_gen', name, ah, vals], nontrivial=len(vals) > 1,
+                 cls='summary_func=%s:%d:ah=%s' % (name, min(len(vals), 3), ah))
+        tab = pd.DataFrame({'chromosome': ['chr1'] * len(vals), 'start': list(range(10, 10 + len(vals))),
+                            'end': list(range(11, 11 + len(vals))), 'ref': 'A', 'alt': 'G',
+                            'zygosity': 0.5, 'alt_freq': vals})
+        c = fcell(list(VariantArray(tab).baf_by_ranges(seg, summary_func=funcs[name], above_half=ah))[0])
+        fv = [F(x) for x in vals]
+        if len(fv) == 1:
+            cands = [mirror_f(ah, fv[0])] if ah is not None else [fv[0]]
+        else:
+            cands = [agg_f(name, [mirror_f(a, x) for x in fv]) for a in ((True, False) if ah is None else (ah,))]
+        case = {'stage': 'baf_by_ranges', 'summary_func': 'np.nan' + name, 'above_half': ah, 'values': vals}
+        if not any(same_num(c, x) for x in cands):
+            report(ck, 'one range holding %d heterozygous frequencies: baf_by_ranges(summary_func=np.nan%s) is not their %s '
+                   'after mirroring' % (len(vals), name, name), case, code=c, expected=cands, clause='C18_baf_general')
+            continue
+        if not same_num(c, mo):
+            if len(fv) > 1 and ah is None and median_f(fv) != F(1, 2) and abs(median_f(fv) - F(1, 2)) < F(1, 10 ** 9):
+                ck.float_ambiguous += 1
+                continue
+            ck.tie_break('model s2v_gen differs from baf_by_ranges on one range', case, code=c, model=mo)
+
+
+
+
 # ----------------------------------------------------------------------------
 # corpus: fixed regression cases (corpus/c18.json), run first.  An entry is
 #   {name, what, vcf, steps: [...], budget?: {...}}
@@ -1429,6 +1724,8 @@ def norm_vcf(v):
     v = dict(v)
     v['contigs'] = [tuple(c) for c in v['contigs']]
     v['peds'] = [tuple(p) for p in v['peds']]
+    if 'header_contigs' in v:
+        v['header_contigs'] = [tuple(c) for c in v['header_contigs']]
     v.setdefault('other_ped_lines', [])
     v.setdefault('order', 'sorted')
     v.setdefault('mind', 20)
@@ -1443,7 +1740,7 @@ def norm_vcf(v):
         r.setdefault('has_ad', True)
         r.setdefault('has_dp', True)
         r['ckey'] = dict(v['contigs'])[r['chrom']]
-        r['calls'] = [dict(c, phased=c.get('phased', False)) for c in r['calls']]
+        r['calls'] = [dict(c, phased=c.get('phased', False), trim=c.get('trim', False)) for c in r['calls']]
         recs.append(r)
     v['recs'] = recs
     return v
@@ -1545,32 +1842,217 @@ def segment_baf_regression(ck, scratch):
             return
 
 
+def gen_segment_case(rng):
+    """2..4 chromosome arms, 1..3 segments each: a log2 level and an allele fraction of its own per segment; bins of
+    2000 bases every 2500; per segment 0..14 variants (mostly heterozygous SNVs at depth 40 with the segment's alt count
+    +-2, some homozygous, some too shallow, some flagged SOMATIC) at distinct positions inside the segment's bins"""
+    arms = rng.sample([('chr1', 0), ('chr2', 1), ('chr3', 2), ('chr10', 3)], rng.randint(2, 4))
+    arms.sort(key=lambda c: c[1])
+    bins, recs, truth = [], [], []
+    for cname, ckey in arms:
+        nseg = rng.randint(1, 3)
+        levels, counts = [], []
+        for _ in range(nseg):
+            lv = rng.choice([x for x in (-0.9, -0.45, 0.0, 0.5, 0.95) if not levels or abs(x - levels[-1]) >= 0.45])
+            levels.append(lv)
+            counts.append(rng.choice([x for x in (6, 9, 12, 15, 18, 20, 22, 25, 28, 31, 34) if x not in counts]))
+        b0 = 0
+        for lv, a in zip(levels, counts):
+            nb = rng.randint(25, 40)
+            lo, hi = b0 * 2500, (b0 + nb - 1) * 2500 + 2000
+            for i in range(b0, b0 + nb):
+                bins.append((cname, i * 2500, i * 2500 + 2000, lv))
+            b0 += nb
+            nv = rng.choice([0, 1, 1, 2, 3, 5, 8, 11, 14])
+            for pos in sorted(rng.sample(range(lo + 1, hi), nv)):
+                u = rng.random()
+                gt, d, som = [0, 1], 40, False
+                c = min(39, max(1, a + rng.choice([-2, -1, 0, 0, 1, 2])))
+                if u < 0.12:
+                    gt, c = [1, 1], 40
+                elif u < 0.2:
+                    gt, c = [0, 0], 0
+                elif u < 0.28:
+                    d = rng.choice([5, 12, 19])
+                    c = d // 2
+                elif u < 0.33:
+                    som = True
+                recs.append({'chrom': cname, 'ckey': ckey, 'pos': pos, 'ref': 'A', 'alts': ['G'], 'filt': ['PASS'],
+                             'somatic': som, 'info_dp': None, 'info_end': None, 'has_ad': True, 'has_dp': True,
+                             'calls': [{'gt': gt, 'phased': False, 'ad': [d - c, c], 'dp': d, 'trim': False}]})
+            truth.append((cname, lo, hi, lv, a))
+    vcf = {'samples': ['S1'], 'peds': [], 'other_ped_lines': [], 'contigs': arms, 'header_contigs': list(arms),
+           'recs': recs, 'order': 'sorted', 'mind': 20, 'size_class': 'segments', 'whole_sample_missing': None}
+    return vcf, bins, truth
+
+
+def o_segment_baf(vcf, chrom, s, e):
+    """the property: median of the heterozygous frequencies inside the segment's own range, mirrored to one side of
+    1/2 (either side: the direction of the majority is not part of the text); missing when there is none"""
+    vals = []
+    for r in vcf['recs']:
+        c = r['calls'][0]
+        if r['chrom'] == chrom and s <= r['pos'] - 1 and r['pos'] <= e and not r['somatic'] and c['dp'] >= 20 \
+                and len(set(c['gt'])) > 1:
+            vals.append(F(c['ad'][1], c['dp']))
+    if not vals:
+        return [None], vals
+    return [median_f([mirror_f(a, x) for x in vals]) for a in (True, False)], vals
+
+
+def stage_segment(ck, rng, scratch, idx, pend):
+    """The baf column of do_segmentation(..., variants=load_het_snps(vcf)) and of do_call on its output: each output
+    segment must carry the median mirrored frequency of the heterozygous variants inside ITS OWN range; model side:
+    baf_by_ranges over the output segments, one value per row."""
+    import numpy as np
+    from cnvlib.cnary import CopyNumArray as CNA
+    from cnvlib import segmentation, cmdutil, call as cnv_call
+    vcf, bins, truth = gen_segment_case(rng)
+    cx = Ctx(ck, pend, scratch, idx, vcf)
+    method = rng.choice(['haar', 'haar', 'haar', 'none'])
+    bin_labels = rng.choice(['default', 'gaps'])
+    rs = np.random.RandomState(rng.randrange(2 ** 31))
+    rows = [(c, s_, e_, 'g', lv + float(rs.normal(0, 0.02)), 50.0, 1.0) for c, s_, e_, lv in bins]
+    cn = CNA.from_rows(rows, ['chromosome', 'start', 'end', 'gene', 'log2', 'depth', 'weight'], {'sample_id': 's'})
+    if bin_labels == 'gaps':
+        cn.data.index = [3 * i + 2 for i in range(len(rows))]
+    case = dict(cx.base, stage='do_segmentation', method=method, bin_labels=bin_labels,
+                arms=[[c, lo, hi, lv, '%d/40' % a] for c, lo, hi, lv, a in truth], n_bins=len(bins))
+    try:
+        varr = cmdutil.load_het_snps(cx.path)
+        seg = segmentation.do_segmentation(cn, method, variants=varr)
+        got = [(r.chromosome, int(r.start), int(r.end), fcell(r.baf)) for r in seg]
+    except Exception as e:      # noqa
+        report(ck, 'do_segmentation(%s, variants) raised %s: %s' % (method, type(e).__name__, str(e)[:100]), case, clause='C18_baf')
+        cx.close()
+        return
+    nseg_by_arm = {}
+    for c, _, _, _ in got:
+        nseg_by_arm[c] = nseg_by_arm.get(c, 0) + 1
+    ck.count(['segment', idx, method], nontrivial=any(v > 1 for v in nseg_by_arm.values()),
+             cls='segment:%s:arms=%d:segments=%d' % (method, len(nseg_by_arm), len(got)))
+    ranges = [[c, s_, e_] for c, s_, e_, _ in got]
+    ok = True
+    kept = [r for r in vcf['recs'] if not r['somatic'] and r['calls'][0]['dp'] >= 20]
+    if kept and not any(len(set(r['calls'][0]['gt'])) > 1 for r in kept):
+        # no heterozygous record in the whole file: heterozygous() falls back to ALL records (open finding); the
+        # model follows the code there, the property's oracle (every segment missing) is reported under the signature
+        ok = False
+        if any(b is not None for _, _, _, b in got):
+            report(ck, 'do_segmentation gives a baf from %d records none of which is germline-heterozygous (documented '
+                   'fallback of VariantArray.heterozygous)' % len(kept), dict(case, segments=got), sig=SIG_FALLBACK,
+                   code=[b for _, _, _, b in got], expected=[None] * len(got), clause='C18_het_fallback')
+    for c, s_, e_, b in (got if ok else []):
+        cands, vals = o_segment_baf(vcf, c, s_, e_)
+        ck.cls('segment:variants-in-segment=%s' % (len(vals) if len(vals) < 2 else '2+'))
+        if not any(same_num(b, x) for x in cands):
+            report(ck, 'baf of segment %s:%d-%d of do_segmentation(%s, variants) is not the mirrored median of the %d '
+                   'heterozygous frequencies inside it' % (c, s_, e_, method, len(vals)),
+                   dict(case, segments=got), code=b, expected=cands, frequencies=vals[:20], clause='C18_baf/C18_attached')
+            ok = False
+            break
+
+    def cb(m, code=[b for _, _, _, b in got], case=dict(case, segments=got)):
+        if isinstance(m, Err) or not same_vec(code, m[0]):
+            ck.tie_break('model baf_by_ranges over the output segments differs from the baf column of do_segmentation', case,
+                         code=code, model=m)
+    if ranges:
+        pend.add('baf', [cx.H, cx.R, None, None, 1, 20, True, None, [[ranges, None, False]]], cb)
+    # do_call on the segmentation output: the baf column is recomputed per row (a stale column must not survive, row
+    # labels must not matter) and rescaled for purity
+    if ok and ranges:
+        sent, outs, cases = [], [], []
+        for purity in rng.sample([None, 1.0, 0.3, 0.6, 0.85], 2):
+            mode = rng.choice(['default', 'gaps', 'repeated'])
+            seg2 = seg.copy()
+            seg2['baf'] = 0.123                      # stale values
+            if mode == 'gaps':
+                seg2.data.index = [2 * i + 1 for i in range(len(seg2))]
+            elif mode == 'repeated':
+                seg2.data.index = [i // 2 for i in range(len(seg2))]
+            case2 = dict(case, stage='do_call after do_segmentation', purity=purity, segment_labels=mode, segments=got)
+            try:
+                out = cnv_call.do_call(seg2, varr, method='none', purity=purity)
+                c = [fcell(x) for x in out['baf'].tolist()]
+            except Exception as e:      # noqa
+                report(ck, 'do_call on the segmentation output raised %s' % type(e).__name__, case2, clause='C18_rescale')
+                continue
+            ck.count(['segment-call', idx, purity, mode], nontrivial=True,
+                     cls='segment:do_call:%s:labels=%s' % ('rescaled' if purity and purity < 1 else 'plain', mode))
+            bad = False
+            for (ch, s_, e_, _), b in zip(got, c):
+                cands, vals = o_segment_baf(vcf, ch, s_, e_)
+                if cands != [None] and purity and purity < 1:
+                    p_ = F(purity)
+                    cands = [(x - F(1, 2) * (1 - p_)) / p_ for x in cands]
+                if not any(same_num(b, x) for x in cands):
+                    report(ck, 'do_call: baf of segment %s:%d-%d is not the (purity-rescaled) mirrored median of the '
+                           'heterozygous frequencies inside it' % (ch, s_, e_), case2, code=b, expected=cands,
+                           frequencies=vals[:20], clause='C18_rescale/C18_attached')
+                    bad = True
+                    break
+            if not bad:
+                sent.append([ranges, purity])
+                outs.append(c)
+                cases.append(case2)
+
+        def cb2(m, outs=outs, cases=cases):
+            if isinstance(m, Err):
+                ck.tie_break('model do_call source errors', cases[0], model=m)
+                return
+            for c, mm, cs in zip(outs, m, cases):
+                if not same_vec(c, mm):
+                    ck.tie_break('model baf column of do_call (after do_segmentation) differs from the code', cs, code=c, model=mm)
+                    return
+        if sent:
+            pend.add('call_baf', [cx.H, cx.R, None, None, 20, None, sent], cb2)
+    cx.close()
+
+
 def run(ck, scratch):
     ck.rule = ('structured VCFs (1..3 samples; PEDIGREE none / one / two pairs / naming an absent sample / non-Derived lines; '
-               '0..500 records on 1..3 contigs, sorted or shuffled; SNVs, insertions, deletions, ALT ".", <NON_REF>; FILTER '
-               './PASS/q10/REJECT/KEEP; INFO DP/END/SOMATIC; FORMAT GT[:AD][:DP] with called, half-called, missing and haploid '
-               'genotypes, AD/DP missing wholly or partly or for a whole sample, DP disagreeing with AD; depths biased to 0, 1 '
+               '0..500 records on 1..3 contigs, some without a ##contig line, sorted or shuffled; SNVs, insertions, deletions, '
+               'ALT ".", <NON_REF>, symbolic <DEL>/<DUP>/<INS> with INFO END; FILTER ./PASS/q10/REJECT/KEEP; INFO DP/END/SOMATIC; '
+               'FORMAT GT[:AD][:DP] with called, half-called, missing, haploid and phased genotypes, AD/DP missing wholly or partly '
+               'or for a whole sample, trailing FORMAT values dropped from the text, DP disagreeing with AD; depths biased to 0, 1 '
                'and min_depth-1/0/+1, allele fractions biased to 1/8..7/8 exactly) written as text and read back through pysam; '
                'x sample/normal selectors (none / name / index incl. negative / not in file) x min_depth x skip_reject x '
                'skip_somatic x zygosity_freq (None, dyadic, 0.3, 0.1, invalid 0.75) x tumor_boost; segment tables sorted per '
-               'contig with breakpoints on variant starts/ends, gaps, contigs without variants; above_half None/True/False. '
-               'corpus/c18.json first (explicit calls with recorded expectations: the four repaired defects and boundary '
-               'inputs). non-trivial = non-empty table / some but not all rows heterozygous / >1 value; distinct by case hash')
+               'contig with breakpoints on variant starts/ends, gaps, contigs without variants; above_half None/True/False; '
+               'summary_func nanmedian / nanmean / nanmin / nanmax. '
+               'Segmentation stream: 2..4 arms x 1..3 segments with a log2 level and an allele fraction of their own, 0..14 '
+               'variants per segment (het / hom / shallow / SOMATIC), do_segmentation(haar|none, variants) on default / gapped bin '
+               'labels, then do_call(purity) on its output with default / gapped / repeated segment labels and a stale baf column. '
+               'Elementwise streams: _tumor_boost on {0, 1, t = n, NaN, +-inf, <0, >1} x the same and a grid; _mirrored_baf on '
+               'vectors holding NaN / +-inf; one range with 1..8 frequencies under each summary function. '
+               'corpus/c18.json first (explicit calls with recorded expectations: the four repaired defects, boundary '
+               'inputs, the load_het decision table, the VCF structures). non-trivial = non-empty table / some but not all rows '
+               'heterozygous / >1 value / an arm with >1 segment / an edge class; distinct by case hash')
     ck.explanation = ('direct oracle (fractions) only where the property text defines the value: called genotypes, numeric AD/DP, '
-                      'variants not straddling a range boundary; elsewhere code vs extracted model only')
+                      'variants not straddling a range boundary, finite frequencies, TumorBoost away from x/0; elsewhere code vs '
+                      'extracted model only (IEEE reading for NaN / inf cells)')
     ck.unproved_remainder = [
-        'pysam tokenisation of VCF text (FORMAT keys present vs value missing, reserved END) is validated by correspondence only',
+        'pysam tokenisation of VCF text (FORMAT keys present vs value missing or dropped, reserved END, contigs without a header '
+        'line) is validated by correspondence only: the model reads the structured record',
         'chromosome order of GenomicArray.sort enters the model as a rank per contig (sorter_chrom belongs to C08)',
-        'float decisions: zygosity_from_freq thresholds with non-dyadic zygosity_freq within 1e-9 of a frequency are counted '
-        'float_ambiguous and not compared',
-        'baf column of do_segmentation output: one fixed regression input only (haar, two arms, a step in log2 and in allele fraction)',
-        'infinite frequencies (alt count > 0 at depth 0) are compared in the reader only; BAF stages skip such tables, '
-        'and TumorBoost BAF/mirroring is not compared when a normal frequency is exactly 1 (division by zero)',
+        'float decisions: zygosity_from_freq thresholds with non-dyadic zygosity_freq within 1e-9 of a frequency, and a majority '
+        'median within 1e-9 of 1/2, are counted float_ambiguous and not compared',
+        'per-range BAF (baf_by_ranges, do_call) of tables that hold an infinite frequency (alt count > 0 at depth 0) or boost a '
+        'heterozygous row whose normal frequency is exactly 1 is not compared (Model/VBaf.v maps non-finite hits to NaN there); '
+        'the reader, tumor_boost() and mirrored_baf() of such tables ARE compared, against the IEEE reading of the model',
         'pandas label alignment of the TumorBoost assignment is modelled as row-by-row (labels are unique after tabio.read); '
         'the labels of tumor_boost() are compared with the table\'s on every case',
+        'source ties cover the elementwise / scalar bodies (_tumor_boost, _mirrored_baf, zygosity_from_freq, the two row masks, '
+        'alt_freq + fillna, the zygosity chain, the AD branch, rescale_baf); _get_alt_count as a whole, the depth chain of '
+        '_extract_genotype, _choose_samples / _parse_records and the pandas table code (into_ranges, heterozygous, add_columns) '
+        'are outside the translator\'s subset and stay with the hand-written model + correspondence',
+        'haar / none segmentation itself (where the breakpoints fall) is C11/C03\'s: this check takes the output segments as '
+        'they come and decides only their baf column',
     ]
     if not ck.build_status.get('driver_ok'):
         raise RuntimeError('model driver unavailable')
+    import pysam
+    pysam.set_verbosity(0)          # htslib's warnings about contigs without a ##contig line
     rng = ck.rng
     _seen_sigs.clear()
     pend = Pending()
@@ -1583,7 +2065,7 @@ def run(ck, scratch):
         idx += 1
     pend.flush()
     ck.extra['corpus_cases'] = len(corp)
-    nfiles = 150 if quick else 3000
+    nfiles = 150 if quick else 2800
     for i in range(nfiles):
         vcf = gen_vcf(rng, ck.tier)
         run_vcf(ck, rng, scratch, idx, vcf, pend, budget)
@@ -1592,7 +2074,12 @@ def run(ck, scratch):
             pend.flush()
     pend.flush()
     segment_baf_regression(ck, scratch)
+    for _ in range(14 if quick else 200):
+        stage_segment(ck, rng, scratch, idx, pend)
+        idx += 1
+    pend.flush()
     check_formulas(ck, rng)
+    check_edges(ck, rng)
     ck.extra['files'] = idx
 
 
